@@ -524,6 +524,14 @@ func (d *driver) check() int {
 					mu.Unlock()
 					return
 				}
+				if n := len(recs); n > 0 && kindOf(recs[n-1]) == "abandon" {
+					// the worker gave up on a run that does not terminate (already
+					// reported as a violation record); carry on after it
+					var idx uint64
+					json.Unmarshal(recs[n-1]["idx"], &idx)
+					from = idx + stride
+					continue
+				}
 				if !crashed {
 					return
 				}
@@ -557,7 +565,7 @@ func (d *driver) check() int {
 		d.writeEvidence(ev, 0)
 		return d.fatal("%d run(s) ended in a simulator diagnostic, e.g. %s", ev.harness, ev.harnessMsg)
 	}
-	if ev.runs == 0 {
+	if ev.runs == 0 && len(viols) == 0 {
 		return d.fatal("no runs were executed")
 	}
 
